@@ -440,8 +440,12 @@ def check_merge_pipeline(facts, chk, rule, tier):
                 t1, t2 = tab('x', n1, s1), tab('y', n2, s2)
                 if not t1.rows or not t2.rows:
                     continue
-                m = code_merge(facts, [mk_array(facts, t1), mk_array(facts, t2)])
                 nrun += 1
+                try:
+                    m = code_merge(facts, [mk_array(facts, t1), mk_array(facts, t2)])
+                except Panic as e:
+                    bad.append(((t1, t2), 'merging two compatible tables %r + %r panics (%s)' % (t1, t2, e.kind)))
+                    continue
                 names, kmers, rows, counts, ncols = read_array(facts, m)
                 want = spec_merge([t1, t2])
                 got = sorted(zip(kmers, rows))
@@ -454,13 +458,17 @@ def check_merge_pipeline(facts, chk, rule, tier):
     want = spec_merge([ta, tb, tc])
     for how in ('flat', 'left', 'right'):
         A, B, C = (mk_array(facts, t) for t in (ta, tb, tc))
-        if how == 'flat':
-            m = code_merge(facts, [A, B, C])
-        elif how == 'left':
-            m = code_merge(facts, [code_merge(facts, [A, B]), C])
-        else:
-            m = code_merge(facts, [A, code_merge(facts, [B, C])])
         nrun += 1
+        try:
+            if how == 'flat':
+                m = code_merge(facts, [A, B, C])
+            elif how == 'left':
+                m = code_merge(facts, [code_merge(facts, [A, B]), C])
+            else:
+                m = code_merge(facts, [A, code_merge(facts, [B, C])])
+        except Panic as e:
+            bad.append(((how,), 'nested merge (%s) of compatible tables panics (%s)' % (how, e.kind)))
+            continue
         names, kmers, rows, counts, ncols = read_array(facts, m)
         if names != want.names or sorted(zip(kmers, rows)) != sorted(want.rows):
             bad.append(((how,), 'nested merge (%s) %s %s differs from joint table %r' % (how, names, sorted(zip(kmers, rows)), want)))
